@@ -471,7 +471,7 @@ func TestC19Reregistration(t *testing.T) {
 			// the other identity's record is untouched
 			otherAfter, otherErr2 := st.GetNode(store.NodeID(other.nodeID))
 			if (otherErr == nil) != (otherErr2 == nil) || (otherErr == nil && otherAfter.URI != otherBefore.URI) {
-				fail("registration of %s changed the stored address of %s: %q -> %q", self.name, other.name, otherBefore.URI, otherAfter.URI)
+				fail("registration of %s changed the stored record of %s: %s -> %s", self.name, other.name, uriOrAbsent(otherBefore, otherErr), uriOrAbsent(otherAfter, otherErr2))
 			}
 			selfAfter, selfErr2 := st.GetNode(store.NodeID(self.nodeID))
 			if err != nil {
@@ -479,7 +479,7 @@ func TestC19Reregistration(t *testing.T) {
 					fail("well-formed registration refused: %v", err)
 				}
 				if (selfErr == nil) != (selfErr2 == nil) || (selfErr == nil && selfAfter.URI != selfBefore.URI) {
-					fail("a refused registration changed the stored address of %s: %q -> %q", self.name, selfBefore.URI, selfAfter.URI)
+					fail("a refused registration changed the stored record of %s: %s -> %s", self.name, uriOrAbsent(selfBefore, selfErr), uriOrAbsent(selfAfter, selfErr2))
 				}
 				continue
 			}
@@ -685,4 +685,11 @@ func (m *flakyManager) OnUpdate(node store.Node, peers []store.Node) (store.Bala
 		return store.Balance{}, errors.New("balance backend unavailable")
 	}
 	return store.Balance{}, nil
+}
+
+func uriOrAbsent(n *store.Node, err error) string {
+	if err != nil || n == nil {
+		return fmt.Sprintf("(no record: %v)", err)
+	}
+	return fmt.Sprintf("address %q", n.URI)
 }
